@@ -33,6 +33,12 @@ CHECKS = {
  "C20": dict(cat="exploration", ref="DESIGN.md §3 C20",
    text="Exhaustive sweep over (variant, len 0..N, alignment, position of a single non-zero byte, guard-page placement) of the zero-detect routine; aggregates per (variant, len) are judged by TLC against spec/MemZero.tla.",
    note="Trusted: aggregation in h_mem.c; TLC.", technique="exhaustive enumeration of the implementation input space within N, judged by TLC against the TLA+ definition"),
+ "C09": dict(cat="exploration", ref="DESIGN.md §3 C09",
+   text="TLC judges recorded behaviour of the real code against EC.tla/GF256.tla: generator matrices equal the documented formulas; gf_invert_matrix returns success exactly for non-singular inputs (Gauss-Jordan in the spec) and in*out=I, "
+        "on random / rank-deficient-by-construction / zero-pivot matrices; an erasure sweep drives the real generator -> invert -> init_tables -> encode pipeline over every k-subset of survivors (exhaustive for small m and for every bounded row of the documented Vandermonde-safe table, sampled for large m) "
+        "and TLC requires zero failures inside the spec's safe set. Spec-only: TLC enumerates all survivor sets of the spec's own matrices for m <= 9 (11 thorough).",
+   note="Trusted: TLC's evaluation of GF256!Invert; harness h_c09.c; for the sweep the expected value is the original data (property is its own oracle).",
+   technique="trace validation of recorded generator/inversion/erasure-sweep results against the TLA+ spec; spec-level survivor-set enumeration by TLC"),
  "C12": dict(cat="exploration", ref="DESIGN.md §3 C12",
    text="Exhaustive over the implementation's whole input space: all 65,536 gf_mul operand pairs, all 256 gf_inv operands and every byte of "
         "the table expansions of all 256 constants (gf_vect_mul_init, ec_init_tables_base, dispatched ec_init_tables, ec_init_tables_gfni) are "
